@@ -240,12 +240,13 @@ def check_predict_tracking(chk, rep, repo):
     li = bs.loop
     from ..rules_scan import ordered_scan
     view = ordered_scan(w, bs, [("attr", G, "n_nodes"), ("call", ("builtin", "len"), (("attr", G, "nodes"),), ()),
-                               ("call", ("builtin", "len"), (("attr", G, "idx_nodes"),), ())])
+                               ("call", ("builtin", "len"), (("attr", G, "idx_nodes"),), ())],
+                        orders=(("attr", G, "idx_nodes"),))
     if any(k == "position" for k, _ in view.problems):
         rep.fn("P1-position", fn, "scan position variable", False, dict(view.problems)["position"])
         return
     t0 = ("idx", ("attr", G, "idx_nodes"), ("const", 0))
-    nxt = ("idx", ("attr", G, "idx_nodes"), view.pos)
+    nxt = view.examined(("attr", G, "idx_nodes"))
     conq = {n: v for n, v in bs.companions.items() if v[1] == nxt}
     rep.fn("P1-companion", fn, "the conqueror is recorded in the improving branch (same node as the minimum)",
            len(conq) == 1, f"companions: { {n: show(v[1])[:50] for n, v in bs.companions.items()} }", line=li.line)
